@@ -138,6 +138,20 @@ static void run_case(int ntok, char **tok)
 		else if (!strcmp(op, "wire")) { do_wire(vh_int(tok[t++])); }
 		else if (!strcmp(op, "recv")) { do_recv(); }
 		else if (!strcmp(op, "drain")) { pump(); }
+		else if (!strcmp(op, "peek") || !strcmp(op, "peekn")) {
+			/* preview of the message being decoded (mpt_queue_peek); reported behind the status */
+			size_t n = vh_int(tok[t++]), i;
+			uint8_t *tmp = malloc(n ? n : 1);
+			ssize_t pr;
+			memset(tmp, 0xee, n ? n : 1);   /* bytes the call leaves untouched (it copies nothing after a decoder error) */
+			pr = mpt_queue_peek(&r, n, op[4] ? 0 : tmp);
+			if (!nrecv) vh_add("-");
+			vh_add("|ok~K%zd:", pr);
+			if (op[4] || pr <= 0 || !n) vh_add("-");
+			else for (i = 0; i < (size_t) pr && i < n; i++) vh_add("%02x", tmp[i]);
+			free(tmp);
+			goto state;
+		}
 		else if (!strcmp(op, "dump")) {
 			t = t; /* no token for dump */
 			/* debugging aid: writer and reader rings (not used by generated cases) */
@@ -153,6 +167,7 @@ static void run_case(int ntok, char **tok)
 		else { vh_add("?%s", op); break; }
 		if (!nrecv) vh_add("-");
 		if (rc < 0) vh_add("|fail%zd", rc); else vh_add("|ok");
+state:
 		/* mechanism state of both framed queues (compared with the ring-level model only) */
 		{
 			size_t i;
